@@ -375,8 +375,13 @@ func (g *c16Gen) document(t *c16Type, strict bool, plan *c16Plan) *doc.Node {
 			plan.how[f.Name] = "absent"
 		}
 	}
-	// extra keys for the catch-all
-	for i, n := 0, g.r.IntN(4); i < n; i++ {
+	// extra keys for the catch-all; now and then a mapping of well over 64 entries (the fields' own keys then sit
+	// anywhere among them after the shuffle below)
+	nExtra := g.r.IntN(4)
+	if g.r.IntN(25) == 0 {
+		nExtra = 66 + g.r.IntN(80)
+	}
+	for i, n := 0, nExtra; i < n; i++ {
 		k := g.freshKey()
 		if g.r.IntN(8) == 0 && !m.Has("") {
 			k = ""
